@@ -112,7 +112,7 @@ def used_operands(h, cls='proj.Point', d=2):
     D = Binv @ A @ B
     _cmp(h, "inverse(conjugate)", D.inv() @ (D @ X), X)
     E = Binv @ Ainv
-    _cmp(h, "inverse(product of inverses)", E.inv() @ X, C @ X, exact=False)
+    _cmp(h, "inverse(product of inverses)", E.inv() @ X, C @ X)
     _cmp(h, "double inverse", A.inv().inv() @ X, A @ X)
 
 
